@@ -308,7 +308,10 @@ Record rawreq := mk_rawreq { q_verb : bytes; q_uri : bytes; q_headers : list hea
                              q_rawq : list header; q_encq : list encq; q_body : body }.
 (* the request connect-go built *)
 Record origreq := mk_orig { o_method : bytes; o_path : bytes; o_headers : hmap; o_body : bytes }.
-Record sent := mk_sent { s_method : bytes; s_path : bytes; s_query : hmap; s_headers : hmap; s_body : bytes }.
+(* what is handed to the transport: s_target is req.URL.RequestURI(), the request target both
+   net/http (HTTP/1.1 request line) and x/net/http2 (:path) put on the wire; s_query the
+   url.Values it was built from (the URI's own query when no parameters are listed) *)
+Record sent := mk_sent { s_method : bytes; s_target : bytes; s_query : hmap; s_headers : hmap; s_body : bytes }.
 
 (* base64.URLEncoding (with padding) *)
 Definition b64_char (n : N) : N :=
@@ -331,15 +334,154 @@ Fixpoint split_first (sep : N) (s : bytes) : bytes * option bytes :=
               else let (a, b) := split_first sep r in (c :: a, b)
   end.
 
+(* ----- net/url (go1.23), for references without scheme and authority ----- *)
+Definition in_set (c : N) (l : list N) : bool := existsb (N.eqb c) l.
+Definition is_alnum (c : N) : bool :=
+  is_digit c || ((65 <=? c) && (c <=? 90)) || ((97 <=? c) && (c <=? 122)).
+Definition ishex (c : N) : bool := is_digit c || ((97 <=? c) && (c <=? 102)) || ((65 <=? c) && (c <=? 70)).
+Definition unhex (c : N) : N :=
+  if is_digit c then c - 48 else if (97 <=? c) && (c <=? 102) then c - 87
+  else if (65 <=? c) && (c <=? 70) then c - 55 else 0.
+Definition upperhex (n : N) : N := if n <? 10 then 48 + n else 55 + n.
+(* stringContainsCTLByte *)
+Definition is_ctl (c : N) : bool := (c <? 32) || (c =? 127).
+
+Inductive emode := EPath | EQuery | EFragment.
+(* shouldEscape(c, mode) for encodePath / encodeQueryComponent / encodeFragment *)
+Definition should_escape (m : emode) (c : N) : bool :=
+  if is_alnum c then false
+  else if in_set c [45; 95; 46; 126] then false                              (* - _ . ~ *)
+  else if in_set c [36; 38; 43; 44; 47; 58; 59; 61; 63; 64]                   (* $ & + , / : ; = ? @ *)
+       then match m with EPath => c =? 63 | EQuery => true | EFragment => false end
+  else match m with EFragment => negb (in_set c [33; 40; 41; 42]) | _ => true end.   (* ! ( ) * *)
+
+(* escape(s, mode): %XX in upper-case hex, and '+' for a space in a query component.
+   A Go byte is < 256; the mod keeps the two digits hex digits for every N. *)
+Definition esc_byte (m : emode) (c : N) : bytes :=
+  if should_escape m c then
+    match m with
+    | EQuery => if c =? 32 then [43] else [37; upperhex ((c / 16) mod 16); upperhex (c mod 16)]
+    | _ => [37; upperhex ((c / 16) mod 16); upperhex (c mod 16)]
+    end
+  else [c].
+Definition escape (m : emode) (s : bytes) : bytes := flat_map (esc_byte m) s.
+
+(* unescape(s, mode): None = EscapeError ('%' not followed by two hex digits);
+   plus = true is encodeQueryComponent ('+' becomes a space) *)
+Fixpoint unescape (plus : bool) (s : bytes) : option bytes :=
+  match s with
+  | [] => Some []
+  | c :: r =>
+    if c =? 37 then
+      match r with
+      | a :: b :: r' =>
+        if ishex a && ishex b
+        then match unescape plus r' with Some t => Some ((unhex a * 16 + unhex b) :: t) | None => None end
+        else None
+      | _ => None
+      end
+    else match unescape plus r with
+         | Some t => Some ((if plus && (c =? 43) then 32 else c) :: t)
+         | None => None
+         end
+  end.
+
+(* validEncoded(s, mode) *)
+Definition valid_char (m : emode) (c : N) : bool :=
+  in_set c [33; 36; 38; 39; 40; 41; 42; 43; 44; 59; 61; 58; 64; 91; 93; 37] || negb (should_escape m c).
+Definition valid_encoded (m : emode) (s : bytes) : bool := forallb (valid_char m) s.
+
+(* the fields of url.URL that a reference without scheme and authority fills *)
+Record url := mk_url { u_path : bytes; u_rawpath : bytes; u_force : bool; u_rawquery : bytes;
+                       u_frag : bytes; u_rawfrag : bytes }.
+
+(* url.Parse for a reference that is empty or starts with '/', '?' or '#' and has no authority
+   (see uri_class below): cut the fragment, reject control bytes, cut the query - ForceQuery
+   ("ends in '?' and has exactly one '?'") is "the first '?' is the last byte" -, setPath,
+   setFragment.  None = error. *)
+Definition parse_ref (raw : bytes) : option url :=
+  let (u, frag) := split_first 35 raw in
+  if existsb is_ctl u then None
+  else
+    let (rest, q) := split_first 63 u in
+    let force := match q with Some [] => true | _ => false end in
+    let rawq := match q with Some q => q | None => [] end in
+    match unescape false rest with
+    | None => None
+    | Some path =>
+      let rawpath := if bytes_eqb (escape EPath path) rest then [] else rest in
+      match frag with
+      | None | Some [] => Some (mk_url path rawpath force rawq [] [])
+      | Some f =>
+        match unescape false f with
+        | None => None
+        | Some fr => Some (mk_url path rawpath force rawq fr (if bytes_eqb (escape EFragment fr) f then [] else f))
+        end
+      end
+    end.
+
+Definition opt_bytes_eqb (o : option bytes) (b : bytes) : bool :=
+  match o with Some a => bytes_eqb a b | None => false end.
+Definition nonempty (b : bytes) : bool := match b with [] => false | _ => true end.
+
+(* URL.EscapedPath (the Path == "*" case cannot arise: the path is empty or starts with '/') *)
+Definition escaped_path (u : url) : bytes :=
+  if nonempty (u_rawpath u) && valid_encoded EPath (u_rawpath u)
+     && opt_bytes_eqb (unescape false (u_rawpath u)) (u_path u)
+  then u_rawpath u else escape EPath (u_path u).
+Definition escaped_fragment (u : url) : bytes :=
+  if nonempty (u_rawfrag u) && valid_encoded EFragment (u_rawfrag u)
+     && opt_bytes_eqb (unescape false (u_rawfrag u)) (u_frag u)
+  then u_rawfrag u else escape EFragment (u_frag u).
+
+Definition query_part (u : url) : bytes :=
+  if u_force u || nonempty (u_rawquery u) then 63 :: u_rawquery u else [].
+(* URL.String without scheme, user, host (the "./" guard for a first segment with a colon
+   cannot arise either) *)
+Definition url_string (u : url) : bytes :=
+  escaped_path u ++ query_part u ++ (if nonempty (u_frag u) then 35 :: escaped_fragment u else []).
+(* URL.RequestURI: an empty path is "/" *)
+Definition or_slash (p : bytes) : bytes := match p with [] => [47] | _ => p end.
+Definition request_uri (u : url) : bytes := or_slash (escaped_path u) ++ query_part u.
+
 (* url.Values as an ordered multimap: vals[k] = append(vals[k], vs...) *)
 Definition qm_add (k : bytes) (vs : list bytes) (q : hmap) : hmap := hm_put k (hm_vals k q ++ vs) q.
-(* url.ParseQuery on an unescaped query string *)
+(* URL.Query = url.ParseQuery with the error dropped: settings with a ';' or a malformed
+   escape are skipped, empty settings too; keys and values are query-unescaped *)
 Definition parse_query (q : bytes) : hmap :=
-  fold_left (fun m seg => match seg with
-                          | [] => m
-                          | _ => let (k, v) := split_first 61 seg in
-                                 qm_add k [match v with Some v => v | None => [] end] m
-                          end) (split_on 38 q) [].
+  fold_left (fun m seg =>
+               if in_set 59 seg then m
+               else match seg with
+                    | [] => m
+                    | _ => let (k, v) := split_first 61 seg in
+                           match unescape true k, unescape true (match v with Some v => v | None => [] end) with
+                           | Some k', Some v' => qm_add k' [v'] m
+                           | _, _ => m
+                           end
+                    end) (split_on 38 q) [].
+(* url.Values.Encode: keys in sorted order, each value as key=value, joined by '&' *)
+Definition values_encode (q : hmap) : bytes :=
+  join 38 (flat_map (fun k => map (fun v => escape EQuery k ++ 61 :: escape EQuery v) (hm_vals k q))
+                    (sort_bytes (dedup (map fst q)))).
+
+(* how "scheme://host" ++ uri is read by http.NewRequest:
+   - UOrigin: the URI is empty or starts with '/', '?' or '#': the authority is the host of the
+     original request and the URI is path, query and fragment;
+   - UGlued: anything else runs into the authority (host, port or userinfo): NewRequest fails or
+     the request is for another authority - nothing is sent to the given server;
+   - with query parameters listed, a URI starting with exactly two slashes is first read by
+     url.Parse as "//authority/path"; that authority syntax is not modelled (UAuthority). *)
+Inductive uri_kind := UOrigin | UGlued | UAuthority.
+Definition uri_class (uri : bytes) (params : bool) : uri_kind :=
+  match uri with
+  | [] => UOrigin
+  | c :: r =>
+    if in_set c [47; 63; 35] then
+      if params && has_prefix [47; 47] uri && negb (has_prefix [47; 47; 47] uri) then UAuthority else UOrigin
+    else UGlued
+  end.
+
+Inductive rr := RSent (s : sent) | RError | RUnmodelled.
 
 Section Client.
   Variable compress : N -> bytes -> bytes.
@@ -357,18 +499,46 @@ Section Client.
                 end
     end.
 
-  (* None = RoundTrip returns an error before anything is sent *)
-  Definition raw_request (orig : origreq) (r : rawreq) : option sent :=
-    let (path, q) := split_first 63 (q_uri r) in
-    let q0 := parse_query (match q with Some q => q | None => [] end) in
-    let q1 := fold_left (fun m h => qm_add (h_name h) (h_vals h) m) (q_rawq r) q0 in
-    match add_encq (q_encq r) q1 with
-    | None => None
-    | Some q2 =>
-      if forallb is_token_char (q_verb r)
-      then Some (mk_sent (match q_verb r with [] => bs "GET" | v => v end) path q2
-                         (add_headers (q_headers r) []) (fst (write_body compress (q_body r))))
-      else None
+  Definition has_params (r : rawreq) : bool :=
+    match q_rawq r, q_encq r with [], [] => false | _, _ => true end.
+
+  (* the first half of RoundTrip: the URI string handed to NewRequest, with the url.Values it was
+     rebuilt from (None when the URI is passed through untouched).  None = error returned. *)
+  Definition merged_uri (r : rawreq) : option (bytes * option hmap) :=
+    if has_params r then
+      match parse_ref (q_uri r) with
+      | None => None
+      | Some u =>
+        let q1 := fold_left (fun m h => qm_add (h_name h) (h_vals h) m) (q_rawq r) (parse_query (u_rawquery u)) in
+        match add_encq (q_encq r) q1 with
+        | None => None
+        | Some q2 =>
+          Some (url_string (mk_url (u_path u) (u_rawpath u) (u_force u) (values_encode q2) (u_frag u) (u_rawfrag u)),
+                Some q2)
+        end
+      end
+    else Some (q_uri r, None).
+
+  (* RError = RoundTrip returns an error before anything is sent to the given server *)
+  Definition raw_request (orig : origreq) (r : rawreq) : rr :=
+    match uri_class (q_uri r) (has_params r) with
+    | UAuthority => RUnmodelled
+    | UGlued => RError
+    | UOrigin =>
+      match merged_uri r with
+      | None => RError
+      | Some (uri, vals) =>
+        (* http.NewRequestWithContext: method must be a token ("" = GET), the URL must parse *)
+        if forallb is_token_char (q_verb r) then
+          match parse_ref uri with
+          | None => RError
+          | Some u2 =>
+            RSent (mk_sent (match q_verb r with [] => bs "GET" | v => v end) (request_uri u2)
+                           (match vals with Some q => q | None => parse_query (u_rawquery u2) end)
+                           (add_headers (q_headers r) []) (fst (write_body compress (q_body r))))
+          end
+        else RError
+      end
     end.
 End Client.
 
@@ -596,20 +766,30 @@ Definition live_orig : origreq :=
           [(bs "X-Verif-Orig-Marker", [bs "1"]); (bs "Content-Type", [bs "application/x-verif-orig"])]
           (bs "VERIF-ORIG-BODY").
 
-(* c17.request: table version rawrequest -> (err roundtrip) | (0 method path (query) (headers) #body) *)
+(* what the recording server can observe: a query string written in the URI goes onto the wire
+   as it is when no parameters are listed, so it must not contain a space or a non-ASCII byte
+   (the HTTP/1.1 request line would be malformed); CONNECT has its own request-target rules *)
+Definition uri_observable (uri : bytes) : bool :=
+  match snd (split_first 63 (fst (split_first 35 uri))) with
+  | Some q => forallb (fun c => negb (c =? 32) && (c <? 128)) q
+  | None => true
+  end.
+
+(* c17.request: table version rawrequest -> (err roundtrip) | (0 method target (query) (headers) #body) *)
 Definition run_c17_request (args : list sx) : sx :=
   match args with
   | [t; I ver; r] =>
     match (do t <- un_table t; do r <- (if (ver =? 1)%Z || (ver =? 2)%Z then un_rawreq r else None);
-           if negb (match q_uri r with 47 :: _ => true | _ => false end) then None else   (* origin-form URIs only *)
+           if negb (uri_observable (q_uri r)) || bytes_eqb (q_verb r) (bs "CONNECT") then None else
            if body_covered t (q_body r) && forallb (fun e => contents_covered t (e_value e)) (q_encq r)
            then ret (t, r) else None) with
     | None => sx_bad
     | Some (t, r) =>
       match raw_request (tbl_compress t) live_orig r with
-      | None => sx_err "roundtrip"
-      | Some s =>
-        L [I 0%Z; B (s_method s); B (s_path s);
+      | RUnmodelled => sx_bad
+      | RError => sx_err "roundtrip"
+      | RSent s =>
+        L [I 0%Z; B (s_method s); B (s_target s);
            sx_hmap (filter (fun kv => match snd kv with [] => false | _ => true end) (hm_sorted (s_query s)));
            sx_hmap (s_headers s); B (s_body s)]
       end
